@@ -1,4 +1,4 @@
-//go:build verif
+//go:build verif && !js
 
 package tcell
 
@@ -49,6 +49,7 @@ func H09_rune() {
 	t := hNewTScreen("xterm-256color")
 	t.charset = name
 	t.encoder = enc
+	t.acs = map[rune]string{} // ACS glyphs are bracketed by escape sequences by design; the chain is C17's subject
 	t.tty = newHTty(2, 1)
 	t.cells.Resize(2, 1)
 	t.w, t.h = 2, 1
